@@ -266,7 +266,7 @@ def install():
             and threading.get_ident() == sim.main_ident
             and not _KNOWN_THREADS.match(self.name)
         )
-        if sim.active and (self.name.startswith(BG_PREFIXES) or foreign):
+        if sim.active and ((self.name.startswith(BG_PREFIXES) and sim.in_save) or foreign):
             # `foreign`: a thread mdpax itself starts inside save() (no such thread exists on the
             # pinned tree) is part of the writer pipeline: it parks at its entry like Orbax's
             # commit threads, so the plan - not the OS - decides when the save really happens
